@@ -138,7 +138,13 @@ def run_history(chk, drv, hist, nconn, queries_after_each=True, tag="random"):
                     after, integ = real.raw_count()
                     nser = len([r for r in rows if r is not None])
                     chk.count("interrupted.%s" % interrupted)
-                    if interrupted:
+                    if interrupted and after - before == nser and nser > 0:
+                        # the abort arrived when the COMMIT had already taken effect: add() raised, the whole batch is there.
+                        # "All of its serialisable traces or none" holds; the model is told which of the two happened.
+                        chk.count("interrupted.after_commit")
+                        committed += [r for r in rows if r is not None]
+                        mops.append(("add",) + tuple(mrow(r) for r in rows))
+                    elif interrupted:
                         if after != before:
                             chk.fail("atomic", dict(case, detail="interrupted batch left %d of %d rows" % (after - before, nser)))
                         mops.append(("addInt", str(op[3])) + tuple(mrow(r) for r in rows))
